@@ -315,7 +315,12 @@ func (h *H) Run(nSteps int) {
 		if h.Prop == "C07" && (s == nSteps/4 || s == nSteps/2 || s == 3*nSteps/4) {
 			// more index rebuilds when the views are decided: the second and third find an
 			// earlier index state to fall back to
-			h.stepReopen(h.pick())
+			if s == nSteps/2 && h.Mir != nil && !h.mirStale {
+				// the arbitrating node's derived data too
+				h.stepReopen(h.Mir)
+			} else {
+				h.stepReopen(h.pick())
+			}
 		}
 		h.step()
 		if h.R.Violations() > 20 {
